@@ -745,7 +745,10 @@ class Run:
             b = b.value
         if isinstance(b, Obj):
             if b.kind == 'OpChain' and e.attr == 'length':
-                return len(b.f['oids']) if isinstance(b.f.get('oids'), list) else Opaque(norm(e))
+                o_ = symview(b.f.get('oids'))
+                if isinstance(o_, SymSeq):
+                    return self.builtin('len', [o_], {}, e)
+                return len(o_) if isinstance(o_, list) else Opaque(norm(e))
             if e.attr in b.f:
                 v = b.f[e.attr]
                 if e.attr in ID_ATTRS:
@@ -908,6 +911,15 @@ class Run:
             return SymSeq((a.segs if isinstance(a, SymSeq) else list(a)) + (b.segs if isinstance(b, SymSeq) else list(b)))
         if isinstance(op, ast.Mult) and isinstance(a, list) and isinstance(b, int):
             return PList(list(a) * b)
+        if isinstance(op, ast.Mult) and isinstance(b, list) and isinstance(a, int) and not isinstance(a, bool):
+            return PList(list(b) * a)
+        if isinstance(op, ast.Mult) and ((isinstance(a, list) and isinstance(b, Sym)) or (isinstance(b, list) and isinstance(a, Sym))):
+            # n * [x, ..] with a symbolic count: the elements once per value of a fresh variable in [0, n - 1]
+            lst, cnt = (a, b) if isinstance(a, list) else (b, a)
+            if isinstance(lst, PList) and lst.segs is not None:
+                raise FoldError(f'repetition of a sequence of symbolic length in `{norm(node)[:50]}`')
+            var = f'_v{next(self.fresh)}'
+            return SymSeq([Gen(var, Affine.const(0), cnt.a - Affine.const(1), list(lst))])
         if isinstance(a, NUM) and isinstance(b, NUM) and not isinstance(a, bool) and not isinstance(b, bool):
             try:
                 if isinstance(op, ast.Add):
@@ -1002,8 +1014,11 @@ class Run:
             if cls in ('OpChain',):
                 # the constructor copies its list arguments
                 for n in ('oids', 'qnums'):
-                    if isinstance(f.get(n), list):
-                        f[n] = list(f[n])
+                    v_ = symview(f.get(n))
+                    if isinstance(v_, SymSeq):
+                        f[n] = SymSeq(list(v_.segs))
+                    elif isinstance(v_, list):
+                        f[n] = list(v_)
             o = Obj(cls, **f)
             o.f['_node'] = e
             o.f['_ctx'] = list(self.ctx)
@@ -1362,4 +1377,23 @@ def evaluate(repo, fi, string_params=(), max_runs=48):
                 todo.append(dict(dec, **{nd.key: False}))
                 continue
             out.append((run, res))
+    return out
+
+
+def evaluate_call(repo, fi, make_args, max_runs=32):
+    """evaluations of one function for arguments built by make_args() (fresh per run): [(Run, result)]"""
+    out = []
+    todo = [{}]
+    while todo:
+        dec = todo.pop()
+        if len(out) + len(todo) > max_runs:
+            raise FoldError('too many undecided tests')
+        run = Run(repo, fi.module, dec, {})
+        try:
+            res = run.call_function(fi, make_args())
+        except NeedDecision as nd:
+            todo.append(dict(dec, **{nd.key: True}))
+            todo.append(dict(dec, **{nd.key: False}))
+            continue
+        out.append((run, res))
     return out
